@@ -37,8 +37,8 @@ import (
 	clientv3 "go.etcd.io/etcd/client/v3"
 
 	"github.com/dfklegend/cell2/node/app"
-	"github.com/dfklegend/cell2/node/config"
 	"github.com/dfklegend/cell2/node/cluster/clusterproviders/etcd"
+	"github.com/dfklegend/cell2/node/config"
 
 	"verifh/hx"
 )
@@ -183,7 +183,8 @@ func settle() bool {
 
 // runStart is the goroutine StartMember / StartClient runs on (its name is what settle looks for
 // before the provider's own frames exist)
-func runStart(p *etcd.Provider, rec *recorder, member bool, done chan error) {
+func runStart(p *etcd.Provider, rec *recorder, member bool, began chan struct{}, done chan error) {
+	close(began) // from here on this goroutine is visible to settle under its own name
 	if member {
 		done <- p.StartMember(rec)
 	} else {
@@ -221,7 +222,9 @@ func execBoot(o hx.T) (any, bool) {
 	}
 	p.VerifSetRetryInterval(2 * time.Millisecond)
 	done := make(chan error, 1)
-	go runStart(p, rec, member, done)
+	began := make(chan struct{})
+	go runStart(p, rec, member, began, done)
+	<-began
 
 	started, failed, down := false, false, false
 	// has the start call returned during the action just executed?
